@@ -18,6 +18,10 @@ func init() {
 			{Pkg: "wire", Entry: "VerifH03c", What: "session level: surplus/unread fields of one message never change what the next message produces",
 				Quick: map[string]int{"S": 3}, Thorough: map[string]int{"S": 5},
 				Witnesses: []string{"surplus-then-empty-body", "second-parsed"}},
+			{Pkg: "buffer", Entry: "VerifH10b", What: "a skipped (oversized) message is consumed in exactly its declared length, for every segmentation",
+				Quick: map[string]int{"LMAX": 2}, Thorough: map[string]int{"LMAX": 3}, Witnesses: []string{"multi-chunk"}},
+			{Pkg: "wire", Entry: "VerifH10c", What: "session: the message after a skipped one is interpreted from its own first byte",
+				Quick: map[string]int{"LVAR": 3, "OVER": 3}, Witnesses: []string{"oversized-in-the-middle"}},
 		},
 	})
 }
